@@ -125,6 +125,7 @@ type instance struct {
 	rounds  int
 	pingCh  chan pingReq
 	done    chan struct{}
+	started bool     // the loop has been woken at least once (a round of a server without tokens has no ping to mark it)
 	held    *pingReq // first ping of a round, not answered yet: the loop is not waiting on a timer
 	drained bool     // rate-limited configuration: the tokens' budgets have been used up
 }
@@ -167,7 +168,7 @@ func (in *instance) answer(r pingReq) {
 }
 
 func (in *instance) endRound() {
-	if len(in.round) == 0 {
+	if len(in.round) == 0 && (in.c.Tokens != 0 || !in.started) {
 		return
 	}
 	ok := true
@@ -289,6 +290,7 @@ func (in *instance) apply(e event, hist []event) {
 	case "check":
 		in.state = e.V
 		if in.wake(hist) {
+			in.started = true
 			in.settle(hist)
 		}
 	}
@@ -458,7 +460,11 @@ func explore(c cfgT) {
 	interval := time.Duration(c.Interval) * time.Second
 	outcomes := []string{"ok", "error", "timeout"}
 	var vectors [][]string
-	if c.Tokens == 1 {
+	if c.Tokens == 0 {
+		// a server that serves no token (keys without roles, a directory-only server): a round of
+		// checks asks nobody and completes at once
+		vectors = append(vectors, []string{})
+	} else if c.Tokens == 1 {
 		for _, o := range outcomes {
 			vectors = append(vectors, []string{o})
 		}
@@ -566,7 +572,7 @@ func explore(c cfgT) {
 				break
 			}
 			// ... and in the middle of the check that leads there
-			if e.Kind == "check" {
+			if e.Kind == "check" && c.Tokens > 0 { // a round without pings has no middle
 				mid := build(nd.hist)
 				if mid.held == nil && mid.beginCheck(e, hist) {
 					run.Eval(1)
@@ -609,6 +615,7 @@ func main() {
 		cfgs = append(cfgs, cfgT{N: 2, Tokens: 2, Interval: 10, Timeout: 20})
 	}
 	cfgs = append(cfgs, cfgT{N: 2, Tokens: 1, Interval: 60, Timeout: 60, RateLimited: true})
+	cfgs = append(cfgs, cfgT{N: 2, Tokens: 0, Interval: 60, Timeout: 60})
 	for _, c := range cfgs {
 		explore(c)
 		if loopBroken {
